@@ -2,7 +2,7 @@ from typing import List, Optional
 
 from hexital.analysis import utils
 from hexital.core.candle import Candle
-from hexital.utils.indexing import validate_index
+from hexital.utils.indexing import absindex
 
 
 def doji(
@@ -23,8 +23,8 @@ def doji(
     Returns:
         bool: If The given Candle is Doji bool or 1/2
     """
-    index = validate_index(index, len(candles), -1)
-    if index is None:
+    index = absindex(index, len(candles))
+    if index is None or not candles:
         return False
 
     def _doji(indx: int):
@@ -35,7 +35,7 @@ def doji(
     if lookback is None:
         return _doji(index)
 
-    return any(_doji(i) for i in range(len(candles) - lookback, len(candles)))
+    return any(_doji(i) for i in range(index + 1 - lookback, index + 1))
 
 
 def dojistar(
@@ -43,8 +43,8 @@ def dojistar(
     lookback: Optional[int] = None,
     index: Optional[int] = None,
 ) -> bool:
-    index = validate_index(index, len(candles), -1)
-    if index is None:
+    index = absindex(index, len(candles))
+    if index is None or not candles:
         return False
 
     def _dojistar(indx: int):
@@ -67,7 +67,7 @@ def dojistar(
     if lookback is None:
         return _dojistar(index)
 
-    return any(_dojistar(i) for i in range(len(candles) - lookback, len(candles)))
+    return any(_dojistar(i) for i in range(index + 1 - lookback, index + 1))
 
 
 def hammer(
@@ -75,8 +75,8 @@ def hammer(
     lookback: Optional[int] = None,
     index: Optional[int] = None,
 ) -> bool | int:
-    index = validate_index(index, len(candles), -1)
-    if index is None:
+    index = absindex(index, len(candles))
+    if index is None or not candles:
         return False
 
     def _hammer(indx: int):
@@ -98,7 +98,7 @@ def hammer(
     if lookback is None:
         return _hammer(index)
 
-    return any(_hammer(i) for i in range(len(candles) - lookback, len(candles)))
+    return any(_hammer(i) for i in range(index + 1 - lookback, index + 1))
 
 
 def inverted_hammer(
@@ -106,8 +106,8 @@ def inverted_hammer(
     lookback: Optional[int] = None,
     index: Optional[int] = None,
 ) -> bool | int:
-    index = validate_index(index, len(candles), -1)
-    if index is None:
+    index = absindex(index, len(candles))
+    if index is None or not candles:
         return False
 
     def _invhammer(indx: int):
@@ -129,4 +129,4 @@ def inverted_hammer(
     if lookback is None:
         return _invhammer(index)
 
-    return any(_invhammer(i) for i in range(len(candles) - lookback, len(candles)))
+    return any(_invhammer(i) for i in range(index + 1 - lookback, index + 1))
